@@ -10,6 +10,8 @@ import (
 	"os"
 	"runtime/debug"
 	"strings"
+	"sync"
+	"sync/atomic"
 
 	"golang.org/x/tools/go/ssa"
 )
@@ -23,45 +25,63 @@ type AssertStat struct {
 	MaxDur              float64
 }
 
-type Exec struct {
-	prog     *ssa.Program
-	sol      *Solver
-	pool     *FinalPool
-	harness  string
-	tier     int // 0 quick, 1 thorough
-	seed     int64
-	inputs   []string // input terms in creation order (for counterexample read-back)
-	inputTag []string
-	stats    map[string]int
-	funcs    map[*ssa.Function]bool
-	globals  map[*ssa.Global]Val
-	initMode bool
+// Shared: state of one harness run shared by all exploration workers.
+type Shared struct {
+	prog    *ssa.Program
+	pool    *FinalPool
+	harness string
+	tier    int // 0 quick, 1 thorough
+	seed    int64
+	trace   bool
+	vpModel *ssa.Function
 
-	lazyMemo      map[string]StoreEntry
+	declMu sync.Mutex
+	decls  []string // declarations and pre-state axioms, in order (append-only)
+	declN  int
+
+	mu          sync.Mutex // inputs, lazyMemo, materialisation, reachWanted, pending, notes
+	inputs      []string   // input terms in creation order (for counterexample read-back)
+	inputTag    []string
+	lazyMemo    map[string]StoreEntry
+	reachWanted map[string]int
+	pending     []*FinalQuery
+	notes       map[string]bool
+	boundsUsed  map[string]int
+	optionsUsed map[string]bool
+
+	hmu           sync.RWMutex // shared pre-state heap
 	globalHeap    map[int]Val
 	nextGlobalObj int
-	strIntern     map[string]int
-	strNames      []string
-	merges        int
-	mergeFallback int
+
+	smu       sync.Mutex // string interning, seen-sets
+	strIntern map[string]int
+	strNames  []string
+	seen      map[string]bool
+
+	gmu     sync.RWMutex
+	globals map[*ssa.Global]Val
+
+	pathSeq int64
 
 	unwind               int // max symbolic-branch visits per block per frame
 	sliceL               int // max length of havocked slices
 	maxSteps             int
 	maxPaths             int
-	pathSeq              int
-	trace                bool
 	noMerge              bool
 	havocArith           bool
-	reachWanted          map[string]int // label -> witness queries submitted
-	pending              []*FinalQuery
-	dropped              map[string]int
-	vpModel              *ssa.Function
-	declaredReach        map[string]bool
 	overflowAsObligation bool
-	boundsUsed           map[string]int
-	optionsUsed          map[string]bool
-	notes                map[string]bool
+}
+
+// Exec: one exploration worker (own solver process, own statistics).
+type Exec struct {
+	*Shared
+	sol           *Solver
+	stats         map[string]int
+	funcs         map[*ssa.Function]bool
+	dropped       map[string]int
+	merges        int
+	mergeFallback int
+	initMode      bool
 }
 
 func (e *Exec) zero(t types.Type) Val {
@@ -246,6 +266,14 @@ func (e *Exec) get(st *State, f *Frame, v ssa.Value) Val {
 
 // globals: values written by the (concretely executed) package init functions
 func (e *Exec) loadGlobal(g *ssa.Global) Val {
+	e.gmu.RLock()
+	v0, ok0 := e.globals[g]
+	e.gmu.RUnlock()
+	if ok0 {
+		return v0
+	}
+	e.gmu.Lock()
+	defer e.gmu.Unlock()
 	if v, ok := e.globals[g]; ok {
 		return v
 	}
@@ -276,7 +304,9 @@ func (e *Exec) loadGlobal(g *ssa.Global) Val {
 func (e *Exec) heapGet(st *State, id int) Val {
 	v := st.Heap[id]
 	if v == nil && id >= 1<<30 {
+		e.hmu.RLock()
 		v = e.globalHeap[id]
+		e.hmu.RUnlock()
 	}
 	return v
 }
@@ -321,7 +351,10 @@ func setPath(v Val, path []int, nv Val) Val {
 }
 func (e *Exec) store(st *State, p Ptr, v Val) {
 	if p.Glob != nil {
-		e.globals[p.Glob] = setPath(e.loadGlobal(p.Glob), p.Path, v)
+		cur := e.loadGlobal(p.Glob)
+		e.gmu.Lock()
+		e.globals[p.Glob] = setPath(cur, p.Path, v)
+		e.gmu.Unlock()
 		return
 	}
 	if p.ID <= 0 {
@@ -347,9 +380,47 @@ func (e *Exec) drop(reason string) { panic(dropErr{reason}) }
 
 type dropErr struct{ why string }
 
-// run explores all paths from the entry function.
-func (e *Exec) run(entry *ssa.Function, base *State, onDone func(o outcome)) (counts map[string]int) {
+type workQ struct {
+	mu     sync.Mutex
+	cond   *sync.Cond
+	items  []*State
+	active int
+}
+
+func (q *workQ) push(ss ...*State) {
+	q.mu.Lock()
+	q.items = append(q.items, ss...)
+	q.mu.Unlock()
+	q.cond.Broadcast()
+}
+
+// pop blocks until a state is available or all workers are idle with an empty queue (returns nil).
+func (q *workQ) pop() *State {
+	q.mu.Lock()
+	defer q.mu.Unlock()
+	for len(q.items) == 0 {
+		if q.active == 0 {
+			q.cond.Broadcast()
+			return nil
+		}
+		q.cond.Wait()
+	}
+	s := q.items[len(q.items)-1]
+	q.items = q.items[:len(q.items)-1]
+	q.active++
+	return s
+}
+func (q *workQ) done() {
+	q.mu.Lock()
+	q.active--
+	q.mu.Unlock()
+	q.cond.Broadcast()
+}
+
+// run explores all paths from the entry function with the given workers (workers[0] is e itself).
+func (e *Exec) run(entry *ssa.Function, base *State, workers []*Exec, onDone func(o outcome)) (counts map[string]int) {
 	counts = map[string]int{}
+	var cmu sync.Mutex
 	st := &State{Heap: map[int]Val{}, Reached: map[string]bool{}}
 	if base != nil {
 		st = base.clone()
@@ -358,81 +429,105 @@ func (e *Exec) run(entry *ssa.Function, base *State, onDone func(o outcome)) (co
 	}
 	st.Frames = []*Frame{{Fn: entry, Blk: entry.Blocks[0], Regs: map[ssa.Value]Val{}}}
 	e.funcs[entry] = true
-	work := []*State{st}
-	finish := func(o outcome) {
-		e.pathSeq++
-		o.st.ID = e.pathSeq
-		counts[o.kind]++
-		if o.kind == "dropped" {
-			e.dropped[o.why]++
-		}
-		if onDone != nil {
-			onDone(o)
-		}
+	q := &workQ{}
+	q.cond = sync.NewCond(&q.mu)
+	q.items = []*State{st}
+	if len(workers) == 0 {
+		workers = []*Exec{e}
 	}
-	for len(work) > 0 {
-		if e.maxPaths > 0 && e.pathSeq >= e.maxPaths {
-			for _, s := range work {
-				finish(outcome{"dropped", s, "path budget exhausted"})
-			}
-			break
-		}
-		s := work[len(work)-1]
-		work = work[:len(work)-1]
-		func() {
-			defer func() {
-				if r := recover(); r != nil {
-					why := fmt.Sprint(r)
-					if de, ok := r.(dropErr); ok {
-						why = de.why
-					} else if e.trace {
-						fmt.Fprintln(os.Stderr, "DROPPED:", r)
-						debug.PrintStack()
-					}
-					where := ""
-					if len(s.Frames) > 0 {
-						fr := s.Frames[len(s.Frames)-1]
-						if fr.Idx > 0 && fr.Idx <= len(fr.Blk.Instrs) {
-							where = " @ " + fr.Fn.String()
-							if e.trace {
-								where += ": " + fr.Blk.Instrs[fr.Idx-1].String()
-							}
-						}
-					}
-					if len(why) > 160 {
-						why = why[:160]
-					}
-					finish(outcome{"dropped", s, why + where})
+	var wg sync.WaitGroup
+	for _, w := range workers {
+		wg.Add(1)
+		go func(w *Exec) {
+			defer wg.Done()
+			finish := func(o outcome) {
+				o.st.ID = int(atomic.AddInt64(&w.pathSeq, 1))
+				cmu.Lock()
+				counts[o.kind]++
+				cmu.Unlock()
+				if o.kind == "dropped" {
+					w.dropped[o.why]++
 				}
-			}()
+				if onDone != nil {
+					cmu.Lock()
+					onDone(o)
+					cmu.Unlock()
+				}
+			}
 			for {
-				s.Steps++
-				if s.Steps > e.maxSteps {
-					e.drop("step limit")
-				}
-				forks, done := e.step(s)
-				if forks != nil {
-					work = append(work, forks...)
-					if len(forks) == 0 {
-						finish(outcome{"infeasible", s, ""})
-					}
+				s := q.pop()
+				if s == nil {
 					return
 				}
-				if done {
-					k := "ok"
-					if s.Panic != nil {
-						k = "panic"
+				w.explore(s, q, finish)
+				q.done()
+			}
+		}(w)
+	}
+	wg.Wait()
+	return counts
+}
+
+// explore runs one state depth-first; forks are pushed to the shared queue except one that is continued locally.
+func (e *Exec) explore(s *State, q *workQ, finish func(outcome)) {
+	defer func() {
+		if r := recover(); r != nil {
+			why := fmt.Sprint(r)
+			if de, ok := r.(dropErr); ok {
+				why = de.why
+			} else if e.trace {
+				fmt.Fprintln(os.Stderr, "DROPPED:", r)
+				debug.PrintStack()
+			}
+			where := ""
+			if len(s.Frames) > 0 {
+				fr := s.Frames[len(s.Frames)-1]
+				if fr.Idx > 0 && fr.Idx <= len(fr.Blk.Instrs) {
+					where = " @ " + fr.Fn.String()
+					if e.trace {
+						where += ": " + fr.Blk.Instrs[fr.Idx-1].String()
 					}
-					if s.Reached["<assume-false>"] {
-						k = "infeasible"
-					}
-					finish(outcome{k, s, ""})
-					return
 				}
 			}
-		}()
+			if len(why) > 160 {
+				why = why[:160]
+			}
+			finish(outcome{"dropped", s, why + where})
+		}
+	}()
+	for {
+		if e.maxPaths > 0 && atomic.LoadInt64(&e.pathSeq) >= int64(e.maxPaths) {
+			finish(outcome{"dropped", s, "path budget exhausted"})
+			return
+		}
+		s.Steps++
+		if s.Steps > e.maxSteps {
+			e.drop("step limit")
+		}
+		forks, done := e.step(s)
+		if forks != nil {
+			if len(forks) == 0 {
+				finish(outcome{"infeasible", s, ""})
+				return
+			}
+			if len(forks) > 1 {
+				q.push(forks[:len(forks)-1]...)
+			}
+			s = forks[len(forks)-1]
+			continue
+		}
+		if done {
+			k := "ok"
+			if s.Panic != nil {
+				k = "panic"
+			}
+			if s.Reached["<assume-false>"] {
+				k = "infeasible"
+			}
+			finish(outcome{k, s, ""})
+			return
+		}
 	}
-	return counts
 }
 
 // fork branches on a symbolic boolean; returns the feasible successor states (conditions added).
